@@ -226,6 +226,12 @@ class FormatterConfig:
         return None
 
 
+def split_lines(value: str) -> T.List[str]:
+    '''Like str.splitlines(keepends=True), but only a newline ends a line: the other
+    separators known to splitlines (form feed, U+2028, ...) can be part of a comment.'''
+    return [line for line in re.split(r'(?<=\n)', value) if line]
+
+
 class MultilineArgumentDetector(FullAstVisitor):
 
     def __init__(self, config: FormatterConfig):
@@ -333,7 +339,7 @@ class TrimWhitespaces(FullAstVisitor):
         self.in_block_comments = False
 
     def visit_WhitespaceNode(self, node: mparser.WhitespaceNode) -> None:
-        lines = node.value.splitlines(keepends=True)
+        lines = split_lines(node.value)
         node.value = ''
         in_block_comments = self.in_block_comments
         with_comments = ['#' in line for line in lines] + [False]
@@ -662,7 +668,7 @@ class ArgumentFormatter(FullAstVisitor):
         self.exit_node(node)
 
     def visit_WhitespaceNode(self, node: mparser.WhitespaceNode) -> None:
-        lines = node.value.splitlines(keepends=True)
+        lines = split_lines(node.value)
         if lines:
             indent = (node.condition_level + self.level) * self.config.indent_by
             node.value = '' if node.block_indent else lines.pop(0)
